@@ -343,6 +343,10 @@ def compare_run(r_line, p_line):
         # a count with constant second difference: Python's make_rule skips it and may still reach
         # the infinite-rule verdict from the other counts; Rust has no such rule form (Unknown)
         return "python_second_difference", []
+    if p.get("cap", "0") != "0":
+        # Python simulated a delta of more than 90 000 steps; the Rust prover has a hard-coded cap
+        # there (src/prover.rs try_rule returns None) that it does not report in its result
+        return "rust_delta_cap_90000_unreported", []
     bad = []
     if r["result"] != p["result"]:
         bad.append("kind")
@@ -373,7 +377,7 @@ def check_runs(rep, tier, seed, cases):
                       found_input=False)
         return 0, 0
     impl_py = run_py(l_py, case_timeout=60 if tier != "thorough" else 150)
-    excl, kinds_r, kinds_p = {}, {}, {}
+    excl, excl_ex, kinds_r, kinds_p = {}, {}, {}, {}
     overflow_idx = []
     compared = nontrivial = viol = 0
     flags = {"sus": 0, "unk": 0}
@@ -395,6 +399,8 @@ def check_runs(rep, tier, seed, cases):
             viol += 1
         elif cat is not None:
             excl[cat] = excl.get(cat, 0) + 1
+            if len(excl_ex.setdefault(cat, [])) < 3:
+                excl_ex[cat].append({"case": l_rs[k], "rust": r_line[:300], "python": p_line[:300]})
         else:
             compared += 1
             p = parse_kv(p_line)
@@ -411,11 +417,16 @@ def check_runs(rep, tier, seed, cases):
             if e not in ("EXTPANIC", "PYTIMEOUT") and not e.startswith("PYEXC"):
                 f9 += 1
                 rep.known("F9", f"rust_stuff.run_prover('{cases[k][1]}', {cases[k][0]}) -> {e.split(' last=')[0]}"
-                                f" ; overflow-checked build: limit:overflow ; Python: {impl_py[k].split(' last=')[0]}")
+                                f" ; overflow-checked build: limit:overflow ; Python: {impl_py[k].split(' last=')[0][:160]}")
+    for cat in ("rust_delta_cap_90000_unreported", "python_second_difference"):
+        if excl.get(cat):
+            rep.notes.append(f"run clause: {excl[cat]} program(s) excluded as {cat}: the two implementations "
+                             f"give different results there, e.g. {excl_ex[cat][0]}")
     rep.cov["runs"] = {
         "cases": len(cases),
         "compared_field_by_field": compared,
         "excluded": excl,
+        "excluded_examples": excl_ex,
         "release_extension_wrapped_where_checked_build_overflows": f9,
         "outcome_kinds_rust": kinds_r,
         "outcome_kinds_python": kinds_p,
@@ -429,9 +440,15 @@ def check_runs(rep, tier, seed, cases):
 def gen_run_cases(tier, seed):
     progs, desc = gen_progs(tier, seed)
     if tier == "thorough":
-        cases = [(lim, p) for p in progs for lim in (100, 1000, 10000)]
+        # the 10^4 runs dominate the cost (Python: seconds each): every 5th program gets one
+        off = seed % 5
+        cases = [(lim, p) for k, p in enumerate(progs)
+                 for lim in ((100, 1000, 10000) if k % 5 == off else (100, 1000))]
     else:
+        off = seed % 8
         cases = [(2000, p) for p in progs]
+        cases += [(10000, p) for k, p in enumerate(progs) if k % 8 == off]
+        cases += [(100, p) for k, p in enumerate(progs) if k % 8 == (off + 4) % 8]
     return cases, desc
 
 
@@ -486,7 +503,7 @@ def check(rep, tier, seed, replay):
           " steps over 2..6 colours, drifted sequences, sequences with scan/set_count assignments; each step observed"
           " on real Rust, real Python and both Lean models."
           " run clause: " + "; ".join(desc) + "; cycle limits "
-        + ("100, 1000, 10000" if tier == "thorough" else "2000")
+        + ("100, 1000 (all), 10000 (every 5th program)" if tier == "thorough" else "2000 (all), 10000 and 100 (every 8th program each)")
         + ". Distinct non-trivial = compared runs with >= 2 cycles or a rule application, plus distinct step sequences.")
     rep.cov["samples"] = ([f"tapeops {seqs[0]}"] if seqs else []) + [f"runprover17 {l} | {p}" for l, p in cases[:2]] \
         + [f"pyrun {l} | {p}" for l, p in cases[len(cases) // 2: len(cases) // 2 + 2]]
